@@ -241,7 +241,11 @@ def run_check(pid, tier, seed):
         S.errors.append("zero obligations generated")
     ev = write_evidence(pm, S, L, vcs, funcs_ok, funcs_oor, bres, npstub)
     # ---- output -------------------------------------------------------------------
+    shown = set()
     for k, v in S.known_hits:
+        if id(k) in shown:
+            continue
+        shown.add(id(k))
         print("KNOWN-FINDING: property=%s %s" % (pid, k.get("what")))
     for u in S.undecided:
         print("UNDECIDED property=%s obligation=%s (%s)" % (pid, u["obligation"], u["why"][:160]))
